@@ -1,4 +1,135 @@
-import GoSup.Model.Planner
-/-! # C13 — property theorems -/
+import Batteries.Data.List.Perm
+import GoSup.Model.Equal
+import GoSup.Model.HttpSeq
+import GoSup.Spec.C13
+/-!
+# C13 — property theorems (Config.Equal decides "equivalent"; reload restarts iff not equivalent)
+-/
 namespace GoSup.Props.C13
+open GoSup.Equal
+
+/-- pairwise distinct paths (the only route lists a `ServeMux` accepts) -/
+def Distinct (rs : List Route) : Prop := rs.Pairwise fun a b => a.path ≠ b.path
+
+theorem distinct_unique {rs : List Route} (h : Distinct rs) {x y : Route} (hx : x ∈ rs) (hy : y ∈ rs)
+    (hp : x.path = y.path) : x = y := by
+  induction rs with
+  | nil => simp at hx
+  | cons a t ih =>
+    have hc := List.pairwise_cons.mp h
+    rcases List.mem_cons.mp hx with rfl | hx' <;> rcases List.mem_cons.mp hy with rfl | hy'
+    · rfl
+    · exact absurd hp (hc.1 y hy')
+    · exact absurd hp.symm (hc.1 x hx')
+    · exact ih hc.2 hx' hy'
+
+theorem distinct_nodup {rs : List Route} (h : Distinct rs) : rs.Nodup :=
+  h.imp (fun hne e => hne (by rw [e]))
+
+/-- with distinct paths the path map of `Routes.Equal` finds exactly the route of that path -/
+theorem lookupLast_distinct {rs : List Route} (h : Distinct rs) (p : String) (y : Route) :
+    lookupLast rs p = some y ↔ y ∈ rs ∧ y.path = p := by
+  simp only [lookupLast]
+  constructor
+  · intro hf
+    have hm := List.mem_of_find?_eq_some hf
+    have hp := List.find?_some hf
+    exact ⟨by simpa using hm, by simpa using hp⟩
+  · rintro ⟨hm, hp⟩
+    cases hf : rs.reverse.find? (fun r => r.path == p) with
+    | none =>
+      have := List.find?_eq_none.mp hf y (by simpa using hm)
+      simp [hp] at this
+    | some z =>
+      have hzm := List.mem_of_find?_eq_some hf
+      have hzp := List.find?_some hf
+      have : z = y := distinct_unique h (by simpa using hzm) hm (by simp at hzp; rw [hzp, hp])
+      rw [this]
+
+theorem sortedNames_perm {a b : List Route} (h : a.Perm b) : sortedNames a = sortedNames b := by
+  unfold sortedNames
+  have hm : (a.map (·.name)).Perm (b.map (·.name)) := h.map _
+  have h1 := List.mergeSort_perm (a.map (·.name)) (fun x y => decide (x ≤ y))
+  have h2 := List.mergeSort_perm (b.map (·.name)) (fun x y => decide (x ≤ y))
+  have hp := h1.trans (hm.trans h2.symm)
+  have tr : ∀ (x y z : String), decide (x ≤ y) = true → decide (y ≤ z) = true → decide (x ≤ z) = true := by
+    intro x y z h1 h2; simp at *; exact String.le_trans h1 h2
+  have tot : ∀ (x y : String), (decide (x ≤ y) || decide (y ≤ x)) = true := by
+    intro x y; simp; exact String.le_total x y
+  have hs1 := List.pairwise_mergeSort tr tot (a.map (·.name))
+  have hs2 := List.pairwise_mergeSort tr tot (b.map (·.name))
+  exact hp.eq_of_pairwise (le := fun x y => decide (x ≤ y) = true)
+    (fun x y _ _ h1 h2 => by simp at h1 h2; exact String.le_antisymm h1 h2) hs1 hs2
+
+/-- **`Routes.Equal` decides set equality of (name, path) pairs** on route lists with pairwise
+distinct paths, of any length and in any order. -/
+theorem routesEqual_iff (r o : List Route) (hr : Distinct r) (ho : Distinct o) :
+    routesEqual r o = true ↔ ∀ x, x ∈ r ↔ x ∈ o := by
+  have sub_iff : (o.all fun x => match lookupLast r x.path with
+        | some y => routeEqual y x
+        | none => false) = true ↔ ∀ x ∈ o, x ∈ r := by
+    simp only [List.all_eq_true]
+    constructor
+    · intro h x hx
+      have := h x hx
+      cases hl : lookupLast r x.path with
+      | none => simp [hl] at this
+      | some y =>
+        simp only [hl, routeEqual, Bool.and_eq_true, beq_iff_eq] at this
+        have hy := (lookupLast_distinct hr x.path y).mp hl
+        have : y = x := by cases x; cases y; simp_all
+        rw [← this]; exact hy.1
+    · intro h x hx
+      have := (lookupLast_distinct hr x.path x).mpr ⟨h x hx, rfl⟩
+      simp [this, routeEqual]
+  constructor
+  · intro h
+    simp only [routesEqual, Bool.and_eq_true, beq_iff_eq] at h
+    obtain ⟨⟨hlen, _⟩, hsub⟩ := h
+    have hsub' := sub_iff.mp hsub
+    have hsp : o.Subperm r := List.subperm_of_subset (distinct_nodup ho) (fun x hx => hsub' x hx)
+    have hp : o.Perm r := hsp.perm_of_length_le (by omega)
+    intro x; exact (hp.mem_iff).symm
+  · intro h
+    have hsp1 : o.Subperm r := List.subperm_of_subset (distinct_nodup ho) (fun x hx => (h x).mpr hx)
+    have hsp2 : r.Subperm o := List.subperm_of_subset (distinct_nodup hr) (fun x hx => (h x).mp hx)
+    have hlen : r.length = o.length := Nat.le_antisymm hsp2.length_le hsp1.length_le
+    have hp : r.Perm o := hsp2.perm_of_length_le (by omega)
+    simp only [routesEqual, Bool.and_eq_true, beq_iff_eq]
+    exact ⟨⟨hlen, by rw [sortedNames_perm hp]⟩, sub_iff.mpr (fun x hx => (h x).mpr hx)⟩
+
+/-- **`Config.Equal` = "same address, timeouts and route name/path set".** -/
+theorem configEqual_iff (a b : Config) (ha : Distinct a.routes) (hb : Distinct b.routes) :
+    configEqual a b = true ↔
+      a.addr = b.addr ∧ a.drain = b.drain ∧ a.read = b.read ∧ a.write = b.write ∧ a.idle = b.idle
+        ∧ ∀ x, x ∈ a.routes ↔ x ∈ b.routes := by
+  simp only [configEqual, Bool.and_eq_true, beq_iff_eq, routesEqual_iff _ _ ha hb]
+  constructor
+  · rintro ⟨⟨⟨⟨⟨h1, h2⟩, h3⟩, h4⟩, h5⟩, h6⟩; exact ⟨h1, h2, h4, h5, h6, h3⟩
+  · rintro ⟨h1, h2, h4, h5, h6, h3⟩; exact ⟨⟨⟨⟨⟨h1, h2⟩, h3⟩, h4⟩, h5⟩, h6⟩
+
+/-- on that domain `Equal` is reflexive and symmetric -/
+theorem configEqual_refl (a : Config) (ha : Distinct a.routes) : configEqual a a = true :=
+  (configEqual_iff a a ha ha).mpr ⟨rfl, rfl, rfl, rfl, rfl, fun _ => Iff.rfl⟩
+
+theorem configEqual_symm (a b : Config) (ha : Distinct a.routes) (hb : Distinct b.routes)
+    (h : configEqual a b = true) : configEqual b a = true := by
+  obtain ⟨h1, h2, h3, h4, h5, h6⟩ := (configEqual_iff a b ha hb).mp h
+  exact (configEqual_iff b a hb ha).mpr ⟨h1.symm, h2.symm, h3.symm, h4.symm, h5.symm, fun x => (h6 x).symm⟩
+
+open GoSup.HttpSeq in
+/-- **Reload decision, operation level.** On a Running server: an equivalent configuration leaves
+the state (live instance, instance count, address) untouched; a different, bindable one is
+served by exactly one freshly created instance on the new address, still Running; a callback
+error, a nil configuration or an unbindable address is visible as `Error`. -/
+theorem c13_reload (s : St) (hr : s.ret = .none) (hf : s.fsm = .running) (v addr : Nat) :
+    step s (.reload (.ok v addr true true)) = s
+    ∧ (step s (.reload (.ok v addr false true))).created = s.created + 1
+    ∧ (step s (.reload (.ok v addr false true))).listening = some addr
+    ∧ (step s (.reload (.ok v addr false true))).active = some v
+    ∧ (step s (.reload (.ok v addr false true))).fsm = .running
+    ∧ (step s (.reload (.ok v addr false false))).fsm = .error
+    ∧ (step s (.reload .err)).fsm = .error ∧ (step s (.reload .nil)).fsm = .error := by
+  simp [step, hr, hf]
+
 end GoSup.Props.C13
